@@ -5,6 +5,7 @@
 import json
 import re
 from vlib import Hit, Result, diff_lines, sh
+from props.c13_rejoin import run_rejoin_trace, N as N_RJT
 
 ASSUMPTIONS = [
     'suspend/resume follow the agent contract of Base/Agent.v (a resume aimed at a running task leaves a token consumed by the next suspension of that phase; any spurious return of a suspension is allowed)',
@@ -271,6 +272,9 @@ def run(ctx):
                 run_jmove(ctx, r, hjm, int(a[0]), int(a[1]), int(a[2]), 300, only=(int(a[3]) if len(a) > 3 else None))
                 return r
             mode, seed, n = rp.get('args', ['race', ctx.seed, 200])
+            if mode == 'rejoin_trace':
+                run_rejoin_trace(ctx, r, drv, int(seed), int(n), 600)
+                return r
             run_mode(ctx, r, h, drv, mode, int(seed), int(n), 600)
             return r
         except Exception as e:
@@ -285,6 +289,7 @@ def run(ctx):
         # construction and later, with 1 worker (the creator always wins) and with 4
         for workers in (1, 4):
             run_jmove(ctx, r, hjm, workers, sd, n['jmove'], to)
+        run_rejoin_trace(ctx, r, drv, sd, N_RJT[ctx.tier], to)    # acceptor for the re-join traces (props/c13_rejoin.py)
     run_mode(ctx, r, h, drv, 'intry', ctx.seed, 1, 60)
     r.notes.append('E4 (run_thread_exit_callbacks popped the front after invoking it unlocked: a callback pushed meanwhile was dropped and the '
                    'invoked one ran twice) is repaired (callback moved out of the list under the lock); reachable through the public API by a joiner that '
